@@ -96,6 +96,8 @@ def walk(o):
     if o is None or isinstance(o, (bool, int, str)):
         return repr(o)
     if isinstance(o, float):
+        if o > 1e9 and o < 1e11:
+            return "<timestamp>"          # wall-clock values (time.time()) are never part of the filter's state
         return repr(o)
     if isinstance(o, Fr):
         return "%d/%d" % (o.numerator, o.denominator)
@@ -108,10 +110,14 @@ def walk(o):
     if hasattr(o, "pattern") and hasattr(o, "match"):
         return "re:" + repr(o.pattern)
     d = getattr(o, "__dict__", None)
+    if d is None and hasattr(type(o), "__slots__"):
+        d = {k: getattr(o, k) for k in type(o).__slots__ if hasattr(o, k)}
     if d is not None:
         return o.__class__.__name__ + "{" + ",".join(
             k + ":" + walk(v) for k, v in sorted(d.items()) if k not in SKIP_ATTRS) + "}"
-    return repr(o)
+    if callable(o):
+        return "callable:" + getattr(o, "__name__", o.__class__.__name__)
+    return o.__class__.__name__
 
 
 def plugin_key_text(p):
@@ -144,7 +150,7 @@ class Feed(object):
     """One invocation of a hook, with everything observable about it."""
     __slots__ = ("kind", "cmd", "result", "fwd", "sent", "B0", "B1", "A0", "atrace", "code", "words",
                  "is_move", "dest_in", "opening", "closing", "episode0", "episode1", "enabled0", "enabled1",
-                 "active", "arc_hit", "regions", "refed", "k0", "k1")
+                 "active", "arc_hit", "regions", "refed", "k0", "k1", "contrib")
 
     def __init__(self, kind, cmd):
         self.kind = kind
@@ -159,6 +165,7 @@ class Feed(object):
         self.arc_hit = False
         self.refed = []
         self.k0 = self.k1 = None
+        self.contrib = None
 
 
 class Step(object):
@@ -807,7 +814,12 @@ class World(object):
                     changed = True
         got = None
         if resp is not None:
-            got = resp[1] if isinstance(resp, tuple) and len(resp) == 2 else "?%r" % (resp,)
+            if isinstance(resp, tuple) and len(resp) >= 2 and isinstance(resp[1], int):
+                got = resp[1]
+            elif hasattr(resp, "status_code"):
+                got = None if int(resp.status_code) in (200, 204) else int(resp.status_code)
+            else:
+                got = "?%r" % (resp,)
         st.response = got
         st.note = ("api", op, exp, got, changed, k0 == self.impl_key(), restricted, old, data)
 
@@ -839,9 +851,20 @@ class World(object):
             self.episode = False
         f.episode1 = self.episode
         prefix = None
+        f.contrib = None                  # decoded contribution: list of lines, or None when nothing is contributed
         if f.result is not None:
-            if isinstance(f.result, tuple) and len(f.result) == 2:
+            if isinstance(f.result, (tuple, list)) and len(f.result) in (2, 3):
+                parts = []
+                for part in f.result[:2]:
+                    if part is None:
+                        continue
+                    parts.extend(part if isinstance(part, (list, tuple)) else str(part).splitlines())
                 prefix = f.result[0]
+                f.contrib = [c for c in parts if isinstance(c, str) and c.strip()]
+                if not f.contrib:
+                    f.contrib = None
+            else:
+                f.contrib = ["<undecodable %r>" % (f.result,)]
         if prefix:
             lines = prefix if isinstance(prefix, (list, tuple)) else str(prefix).splitlines()
             for c in lines:
@@ -884,7 +907,7 @@ class World(object):
                 continue
             r = c.call(c.plugin.handleGcodeQueuing, c.comm, "queuing", cmd, None, g, sc, tags=set())
             fwd = H.decode(cmd, r)
-            if kind == "believed" and not (r is None or r == [cmd]):
+            if kind == "believed" and fwd != [cmd]:
                 self.viol("%s the tool is at (%s, %s); with an additional region (disc r=0.45 at (%s, %s)) that no "
                           "destination of the program touches, the Z-only move %r is not forwarded verbatim: %r "
                           "(the filter tests regions %s mm away from the true position)"
@@ -1129,7 +1152,7 @@ class World(object):
     def _mon_c02(self, st):
         for f in st.feeds:
             if f.kind == "gcode":
-                ok = f.result is None or (isinstance(f.result, list) and len(f.result) == 1 and f.result[0] == f.cmd)
+                ok = f.fwd == [f.cmd]           # by meaning: None, [cmd], cmd and (cmd,) all forward the command unchanged
                 if not ok:
                     self.viol("C02 command %r was not forwarded verbatim although the program never touches an "
                               "enabled region: hook returned %r" % (f.cmd, f.result), self._detail(f))
@@ -1159,7 +1182,7 @@ class World(object):
                 continue
             st.tags.add("hook-while-inactive")
             if f.kind == "gcode":
-                if f.result is not None:
+                if f.fwd != [f.cmd]:
                     self.viol("C11 gcode altered while no print is active: %r -> %r" % (f.cmd, f.result))
                 if f.sent:
                     self.viol("C11 gcode hook sent commands while no print is active: %r" % (f.sent,))
@@ -1167,15 +1190,16 @@ class World(object):
                 if f.sent:
                     self.viol("C11 @-command processed while no print is active: %r sent %r" % (f.cmd, f.sent))
             elif f.kind == "script":
-                if f.result is not None:
+                if f.contrib is not None:
                     self.viol("C11 script hook contributed %r while no print is active" % (f.result,))
             if f.k0 is not None and f.k0 != f.k1:
                 self.viol("C11 %s %r changed the tracking state while no print is active" % (f.kind, f.cmd))
         if st.note and st.note[0] == "event":
             name = st.note[1]
             st.tags.add("event:" + name)
-            if name not in END_EVENTS + ("PRINT_STARTED", "FILE_SELECTED") and not st.note[2]:
-                self.viol("C11 event %s changed the plugin state" % name)
+            # pause / resume / unrelated events: the print stays active (or inactive) and the region list is kept --
+            # both are compared with the reference lifecycle after every step (_registry_checks); internal
+            # bookkeeping of such events is the implementation's business
 
     # ---- C13: registry integrity and notification
     def _mon_c13(self, st):
@@ -1243,17 +1267,16 @@ class World(object):
             if expect:
                 st.tags.add("cleanup-contributed")
                 r = f.result
-                if not (isinstance(r, tuple) and len(r) == 2 and r[1] is None and isinstance(r[0], list) and r[0]
-                        and all(isinstance(c, str) and c for c in r[0])):
+                if f.contrib is None or not f.fwd or f.contrib != f.fwd:
                     self.viol("C15 print ended while excluding but the afterPrintDone hook returned %r "
-                              "(expected (prefix, None))" % (r,))
+                              "(expected a non-empty prefix and no postfix)" % (r,))
                 self._sync_check(f, "the afterPrintDone clean-up")
                 self._zorder_check(f)
                 if abs(self.A.E - self.B.E) > TOL:
                     self.viol("C15 clean-up leaves the extruder coordinate at %s, file %s" % (float(self.A.E), float(self.B.E)))
             else:
                 st.tags.add("nothing-contributed")
-                if f.result is not None:
+                if f.contrib is not None:
                     self.viol("C15 script hook %s contributed %r although %s" % (
                         f.cmd, f.result, "no print is active" if not f.active else
                         ("no episode is open" if not f.episode0 else "it is not gcode/afterPrintDone")))
@@ -1316,6 +1339,11 @@ class World(object):
         """Every command emitted when an episode ends must be explained: flush, exit script, re-sync."""
         pending = self.mon.get("c06_pending", [])
         enter, exit_ = self._c06_scripts()
+        # the extruder re-sync (G92 with only an E word) is not a re-positioning move; where it stands is free
+        def is_g92e(c):
+            gc, _, words, _ = read(c)
+            return gc == "G92" and [l for l, _ in words] == ["E"]
+        emitted = [c for c in emitted if not is_g92e(c) or c in exit_]
         i = 0
         for code, mode, val in pending:
             if i >= len(emitted):
@@ -1431,11 +1459,10 @@ class World(object):
             elif f.kind == "script":
                 if f.closing:
                     st.tags.add("flush-by-print-end")
-                    r = f.result
-                    if not (isinstance(r, tuple) and len(r) == 2 and isinstance(r[0], list)):
-                        self.viol("C06 print ended inside an episode but the script hook returned %r" % (r,))
-                    self._c06_account_close(f, list(r[0]), "the end of the print")
-                elif f.result is not None:
+                    if f.contrib is None:
+                        self.viol("C06 print ended inside an episode but the script hook returned %r" % (f.result,))
+                    self._c06_account_close(f, list(f.contrib), "the end of the print")
+                elif f.contrib is not None:
                     self.viol("C06 script hook contributed %r although no episode was open" % (f.result,))
 
     # ---- C07: synthesised commands are well-formed plain-decimal G-code
